@@ -154,6 +154,7 @@ class Contract:
         result_term=None,
         raises_props=None,
         bounded_cases=None,
+        observer=False,
     ):
         self.target = target
         # sig: one dict, or a list of dicts (alternative signature groups varying together)
@@ -189,6 +190,9 @@ class Contract:
         # input cases the executor cannot reach: name -> dict(scope=..., reason=...); checked natively
         # over the generator's inputs of that case and reported as bounded, never as proved
         self.bounded_cases = bounded_cases or {}
+        # observer: the function does not modify the model objects it is given; only then may its
+        # contract be applied to a caller's state without an exact `call` hook
+        self.observer = observer
         self.result_alias = result_alias
         self.call_native = call_native
         self.gen = gen
@@ -201,6 +205,9 @@ class Contract:
         # input cases the executor cannot reach: name -> dict(scope=..., reason=...); checked natively
         # over the generator's inputs of that case and reported as bounded, never as proved
         self.bounded_cases = bounded_cases or {}
+        # observer: the function does not modify the model objects it is given; only then may its
+        # contract be applied to a caller's state without an exact `call` hook
+        self.observer = observer
 
 
 LEMMAS: dict[str, "Lemma"] = {}
